@@ -1,14 +1,28 @@
-"""Translator for C02: the Unicode table `repr(str)` consults (`str.isprintable`), from the running interpreter.
+"""Translators for C02.
 
+`Printable`: the Unicode table `repr(str)` consults (`str.isprintable`), from the running interpreter.
 Generated/Printable.lean holds the inclusive ranges of code points that are NOT printable; `_stringify` escapes
 string literals with `repr(value)[1:-1]`, whose `\\x../\\u..../\\U........` escapes are chosen by this table.
+
+`Templates`: every message a check under refurb/checks/** can build, read off the CURRENT source of the check by a
+small symbolic evaluation of its `ast` (see `scan_module`): each `ErrorInfo.from_node(node, msg)` / `ErrorInfo(line,
+col, msg)` site is evaluated on every path that reaches it, string-valued locals (`msg = f"Replace …"`, `old = …`,
+`new = f"not {new}"`, `func = "max" if … else "min"`, `for oper in ("==", "is")`, `"==" | "!=" as oper`) are followed,
+local helper functions are inlined.  A message becomes a list of literal chunks and holes; a hole is `stringify(<expr>)`
+(kind `sfy`) or a raw interpolation of something else (`raw:<what>`: a name from a table, `node.name`, `str(node)`, a
+`", ".join(…)`).  Every back-quoted fragment of a message is then parsed with placeholder names in the holes
+(CPython's parser is the reference grammar) and turned into a `Node` with holes (`.other i`), so that Lean computes, by
+`reqs`, the level each hole's position demands.
 """
 
 from __future__ import annotations
 
+import ast
+import re
 import sys
+from typing import Any
 
-from . import extract
+from . import core, extract
 
 
 @extract.register("Printable")
@@ -27,3 +41,1284 @@ def gen_printable() -> str:
         + "def nonPrintableRanges : List (Nat × Nat) := %s\n" % extract.llist(["(%d, %d)" % (a, b) for a, b in ranges])
         + "\nend RefurbVerif.Generated\n"
     )
+
+
+# --------------------------------------------------------------------------------------------
+# message templates of the checks, from their source
+
+
+class Unknown:
+    """a value the evaluation does not follow; interpolated into a message it becomes a raw hole"""
+
+    def __init__(self, kind: str, src: str) -> None:
+        self.kind, self.src = kind, src
+
+    def key(self) -> Any:
+        return ("U", self.kind, self.src)
+
+
+# a symbolic string: tuple of parts ("lit", text) | ("sfy", source of the argument) | ("raw", kind, source)
+SStr = tuple
+MAX_ALTS = 24
+MAX_ENVS = 400
+
+
+def s_lit(t: str) -> SStr:
+    return (("lit", t),) if t else ()
+
+
+def s_cat(a: SStr, b: SStr) -> SStr:
+    if a and b and a[-1][0] == "lit" and b[0][0] == "lit":
+        return a[:-1] + (("lit", a[-1][1] + b[0][1]),) + b[1:]
+    return a + b
+
+
+def is_sstr(v: Any) -> bool:
+    return isinstance(v, tuple) and (not v or isinstance(v[0], tuple))
+
+
+def lit_value(v: Any) -> str | None:
+    """the Python string a symbolic string stands for, if it has no hole"""
+    if is_sstr(v) and all(p[0] == "lit" for p in v):
+        return "".join(p[1] for p in v)
+    return None
+
+
+def as_sstr(v: Any, src: str) -> SStr:
+    """what interpolating `v` into an f-string gives"""
+    if is_sstr(v):
+        return v
+    if isinstance(v, Unknown):
+        return (("raw", v.kind, v.src),)
+    return (("raw", "expr", src),)
+
+
+def vkey(v: Any) -> Any:
+    if isinstance(v, Unknown):
+        return v.key()
+    if isinstance(v, list):
+        return ("L", tuple(vkey(x) for x in v))
+    return v
+
+
+class Table:
+    """a module-level dict with literal string keys"""
+
+    def __init__(self, rows: list[tuple[str, Any]]) -> None:
+        self.rows = rows
+
+    def lookup(self, key: Any) -> list[Any] | None:
+        k = lit_value(key)
+        if k is not None:
+            hit = [v for kk, v in self.rows if kk == k]
+            return hit[-1:] or None
+        vals = Scanner._dedupe([v for _, v in self.rows])
+        return vals if len(vals) <= 12 and not any(isinstance(v, Unknown) for v in vals) else None
+
+
+class Scanner:
+    """symbolic evaluation of one check module"""
+
+    def __init__(self, tree: ast.Module, relpath: str) -> None:
+        self.tree, self.relpath = tree, relpath
+        self.funcs: dict[str, ast.FunctionDef] = {}
+        self.methods: dict[tuple[str, str], ast.FunctionDef] = {}
+        self.consts: dict[str, Any] = {}
+        self.static_msg: str | None = None
+        self.code: str | None = None
+        self.sites: dict[int, set[SStr]] = {}
+        self.reporting: set[str] = set()
+        self.depth = 0
+        self.cls: str | None = None
+        for st in tree.body:
+            if isinstance(st, ast.FunctionDef):
+                self.funcs[st.name] = st
+            elif isinstance(st, ast.ClassDef):
+                if st.name == "ErrorInfo":
+                    self._error_info(st)
+                for m in st.body:
+                    if isinstance(m, ast.FunctionDef):
+                        self.methods[(st.name, m.name)] = m
+            elif isinstance(st, ast.Assign) and len(st.targets) == 1 and isinstance(st.targets[0], ast.Name):
+                c = self._const(st.value)
+                if c is not None:
+                    self.consts[st.targets[0].id] = c
+
+    @staticmethod
+    def _const(e: ast.expr) -> Any:
+        if isinstance(e, ast.Constant) and isinstance(e.value, str):
+            return s_lit(e.value)
+        if isinstance(e, (ast.Tuple, ast.List, ast.Set)) and e.elts and all(isinstance(x, ast.Constant) and isinstance(x.value, str) for x in e.elts):
+            return [s_lit(x.value) for x in e.elts]  # type: ignore[attr-defined]
+        if isinstance(e, ast.Dict) and e.keys and all(isinstance(k, ast.Constant) and isinstance(k.value, str) for k in e.keys):
+            return Table([(k.value, Scanner._cell(v)) for k, v in zip(e.keys, e.values)])  # type: ignore[union-attr]
+        return None
+
+    @staticmethod
+    def _cell(e: ast.expr) -> Any:
+        """a value of a module-level table: strings are followed, tuples element-wise, anything else is opaque"""
+        if isinstance(e, ast.Constant) and isinstance(e.value, str):
+            return s_lit(e.value)
+        if isinstance(e, ast.Tuple):
+            return [Scanner._cell(x) for x in e.elts]
+        return Unknown("cell", ast.unparse(e))
+
+    def _error_info(self, cls: ast.ClassDef) -> None:
+        prefix, code = "FURB", None
+        for st in cls.body:
+            tgt = st.target if isinstance(st, ast.AnnAssign) else st.targets[0] if isinstance(st, ast.Assign) else None
+            val = getattr(st, "value", None)
+            if isinstance(tgt, ast.Name) and isinstance(val, ast.Constant):
+                if tgt.id == "code":
+                    code = val.value
+                elif tgt.id == "prefix":
+                    prefix = val.value
+                elif tgt.id == "msg" and isinstance(val.value, str):
+                    self.static_msg = val.value
+        if code is not None:
+            self.code = f"{prefix}{code}"
+
+    # ---- expressions
+
+    def eval(self, e: ast.expr, env: dict[str, Any]) -> list[Any]:
+        """all values `e` may have in `env` (symbolic strings, lists of values, tables, or Unknown)"""
+        src = ast.unparse(e)
+        if isinstance(e, ast.Constant):
+            return [s_lit(e.value)] if isinstance(e.value, str) else [Unknown("const", src)]
+        if isinstance(e, ast.JoinedStr):
+            outs: list[SStr] = [()]
+            for p in e.values:
+                if isinstance(p, ast.Constant):
+                    alts: list[SStr] = [s_lit(str(p.value))]
+                else:
+                    assert isinstance(p, ast.FormattedValue)
+                    if p.conversion != -1 or p.format_spec is not None:
+                        alts = [(("raw", "fmt", ast.unparse(p.value)),)]
+                    else:
+                        alts = [as_sstr(v, ast.unparse(p.value)) for v in self.eval(p.value, env)]
+                outs = [s_cat(o, a) for o in outs for a in alts][:MAX_ALTS]
+            return list(outs)
+        if isinstance(e, ast.BinOp) and isinstance(e.op, ast.Add):
+            ls, rs = self.eval(e.left, env), self.eval(e.right, env)
+            if any(is_sstr(v) for v in ls + rs):
+                return [s_cat(as_sstr(a, ast.unparse(e.left)), as_sstr(b, ast.unparse(e.right))) for a in ls for b in rs][:MAX_ALTS]
+            return [Unknown("expr", src)]
+        if isinstance(e, ast.IfExp):
+            t = self.truth(e.test, env)
+            out: list[Any] = []
+            if t is not False:
+                out += self.eval(e.body, env)
+            if t is not True:
+                out += self.eval(e.orelse, env)
+            return self._dedupe(out)
+        if isinstance(e, ast.Name):
+            if e.id in env:
+                return [env[e.id]]
+            if e.id in self.consts:
+                return [self.consts[e.id]]
+            return [Unknown("name", e.id)]
+        if isinstance(e, ast.NamedExpr):
+            vs = self.eval(e.value, env)
+            env[e.target.id] = vs[0] if len(vs) == 1 else Unknown("name", e.target.id)
+            return vs
+        if isinstance(e, (ast.Tuple, ast.List, ast.Set)):
+            if any(isinstance(x, ast.Starred) for x in e.elts):
+                return [Unknown("expr", src)]
+            combos: list[list[Any]] = [[]]
+            for x in e.elts:
+                combos = [c + [v] for c in combos for v in self.eval(x, env)][:MAX_ALTS]
+            return combos
+        if isinstance(e, ast.Attribute):
+            return [Unknown("attr", src)]
+        if isinstance(e, ast.Subscript):
+            base = self.eval(e.value, env)
+            if len(base) == 1 and isinstance(base[0], list) and isinstance(e.slice, ast.Constant) and isinstance(e.slice.value, int):
+                try:
+                    return [base[0][e.slice.value]]
+                except IndexError:
+                    pass
+            if len(base) == 1 and isinstance(base[0], Table):
+                keys = self.eval(e.slice, env)
+                if len(keys) == 1:
+                    hit = base[0].lookup(keys[0])
+                    if hit:
+                        return hit
+            return [Unknown("table", src)]
+        if isinstance(e, ast.Call):
+            return self.eval_call(e, env, src)
+        return [Unknown("expr", src)]
+
+    def eval_call(self, e: ast.Call, env: dict[str, Any], src: str) -> list[Any]:
+        f = e.func
+        if isinstance(f, ast.Name) and f.id in ("stringify", "_stringify") and len(e.args) == 1 and not e.keywords:
+            return [(("sfy", ast.unparse(e.args[0])),)]
+        if isinstance(f, ast.Name) and f.id == "slice_expr_to_slice_call" and len(e.args) == 1:
+            return [(("raw", "slicecall", ast.unparse(e.args[0])),)]
+        if isinstance(f, ast.Name) and f.id in ("str", "repr") and len(e.args) == 1:
+            return [(("raw", f.id, ast.unparse(e.args[0])),)]
+        if isinstance(f, ast.Name) and f.id in self.funcs and self.depth < 4:
+            return self.inline(self.funcs[f.id], e, env, None)
+        if isinstance(f, ast.Attribute) and isinstance(f.value, ast.Name) and f.value.id == "self" and self.cls and (self.cls, f.attr) in self.methods and self.depth < 4:
+            return self.inline(self.methods[(self.cls, f.attr)], e, env, "self")
+        if isinstance(f, ast.Attribute) and f.attr == "join" and len(e.args) == 1:
+            seps, lists = self.eval(f.value, env), self.eval(e.args[0], env)
+            if len(seps) == 1 and lit_value(seps[0]) is not None and len(lists) == 1 and isinstance(lists[0], list) and lists[0]:
+                acc: SStr = ()
+                for i, x in enumerate(lists[0]):
+                    acc = s_cat(s_cat(acc, seps[0] if i else ()), as_sstr(x, "item"))
+                return [acc]
+            return [(("raw", "join", src),)]
+        if isinstance(f, ast.Attribute) and f.attr == "get" and e.args:
+            base = self.eval(f.value, env)
+            if len(base) == 1 and isinstance(base[0], Table):
+                keys = self.eval(e.args[0], env)
+                if len(keys) == 1:
+                    hit = base[0].lookup(keys[0])
+                    if hit:
+                        if lit_value(keys[0]) is None and len(e.args) > 1:
+                            hit = hit + self.eval(e.args[1], env)
+                        return self._dedupe(hit)
+        return [Unknown("call", src)]
+
+    def inline(self, fn: ast.FunctionDef, call: ast.Call, env: dict[str, Any], skip: str | None) -> list[Any]:
+        params = [a.arg for a in fn.args.posonlyargs + fn.args.args]
+        if skip and params and params[0] == skip:
+            params = params[1:]
+        defaults = dict(zip(reversed(params), reversed(fn.args.defaults)))
+        defaults.update({a.arg: d for a, d in zip(fn.args.kwonlyargs, fn.args.kw_defaults) if d is not None})
+        bound: list[dict[str, Any]] = [{}]
+        for i, p in enumerate(params + [a.arg for a in fn.args.kwonlyargs]):
+            arg: ast.expr | None = call.args[i] if i < len(call.args) and i < len(params) and not any(isinstance(a, ast.Starred) for a in call.args[: i + 1]) else None
+            for kw in call.keywords:
+                if kw.arg == p:
+                    arg = kw.value
+            if arg is None:
+                arg = defaults.get(p)
+            vals = self.eval(arg, env) if arg is not None else [Unknown("name", p)]
+            # an argument the caller does not know is named after the parameter it becomes
+            vals = [Unknown("name", p) if isinstance(v, Unknown) else v for v in vals]
+            bound = [dict(b, **{p: v}) for b in bound for v in self._dedupe(vals)][:MAX_ALTS]
+        self.depth += 1
+        rets: list[Any] = []
+        saved = self.cls
+        try:
+            for b in bound:
+                self.block(fn.body, [b], rets)
+        finally:
+            self.depth -= 1
+            self.cls = saved
+        return self._dedupe(rets) or [Unknown("call", ast.unparse(call))]
+
+    @staticmethod
+    def _dedupe(vals: list[Any]) -> list[Any]:
+        seen, out = set(), []
+        for v in vals:
+            k = vkey(v)
+            if k not in seen:
+                seen.add(k)
+                out.append(v)
+        return out[:MAX_ALTS]
+
+    def truth(self, t: ast.expr, env: dict[str, Any]) -> bool | None:
+        """decide a test when it only compares fully known strings (prunes impossible paths)"""
+        if isinstance(t, ast.UnaryOp) and isinstance(t.op, ast.Not):
+            r = self.truth(t.operand, env)
+            return None if r is None else not r
+        if isinstance(t, ast.Compare) and len(t.ops) == 1:
+            ls, rs = self.eval(t.left, dict(env)), self.eval(t.comparators[0], dict(env))
+            if len(ls) == 1 and len(rs) == 1:
+                a = lit_value(ls[0])
+                if a is not None and isinstance(t.ops[0], (ast.Eq, ast.NotEq)):
+                    b = lit_value(rs[0])
+                    if b is not None:
+                        return (a == b) == isinstance(t.ops[0], ast.Eq)
+                if a is not None and isinstance(t.ops[0], (ast.In, ast.NotIn)) and isinstance(rs[0], list):
+                    bs = [lit_value(x) for x in rs[0]]
+                    if all(x is not None for x in bs):
+                        return (a in bs) == isinstance(t.ops[0], ast.In)
+        if isinstance(t, ast.Name) and t.id in env:
+            a = lit_value(env[t.id])
+            if a is not None:
+                return bool(a)
+        return None
+
+    # ---- statements
+
+    def record(self, node: ast.AST, env: dict[str, Any]) -> None:
+        """every ErrorInfo construction inside `node`, and every local function called there that may report"""
+        for c in ast.walk(node):
+            if not isinstance(c, ast.Call):
+                continue
+            f = c.func
+            direct = isinstance(f, ast.Name) and f.id == "ErrorInfo"
+            via = isinstance(f, ast.Attribute) and f.attr == "from_node" and isinstance(f.value, ast.Name) and f.value.id == "ErrorInfo"
+            if not (direct or via):
+                if self.depth < 4:
+                    if isinstance(f, ast.Name) and f.id in self.funcs and f.id in self.reporting:
+                        self.inline(self.funcs[f.id], c, dict(env), None)
+                    elif isinstance(f, ast.Attribute) and isinstance(f.value, ast.Name) and f.value.id == "self" and self.cls and (self.cls, f.attr) in self.methods and "self." + f.attr in self.reporting:
+                        self.inline(self.methods[(self.cls, f.attr)], c, dict(env), "self")
+                continue
+            msg: ast.expr | None = None
+            pos = 2 if direct else 1
+            if len(c.args) > pos:
+                msg = c.args[pos]
+            for kw in c.keywords:
+                if kw.arg == "msg":
+                    msg = kw.value
+            if msg is None:
+                vals: list[Any] = [s_lit(self.static_msg)] if self.static_msg is not None else [(("raw", "default", "msg"),)]
+            else:
+                vals = [as_sstr(v, ast.unparse(msg)) for v in self.eval(msg, dict(env))]
+            if c.lineno not in self.sites:
+                self.sites[c.lineno] = set()
+            self.sites[c.lineno].update(vals)
+
+    def _fork(self, envs: list[dict[str, Any]]) -> list[dict[str, Any]]:
+        seen, out = set(), []
+        for env in envs:
+            k = tuple(sorted((n, vkey(v)) for n, v in env.items() if not isinstance(v, Unknown) or v.kind != "name" or v.src != n))
+            if k not in seen:
+                seen.add(k)
+                out.append(env)
+        return out[:MAX_ENVS]
+
+    def bind(self, tgt: ast.expr, val: Any, env: dict[str, Any]) -> None:
+        if isinstance(tgt, ast.Name):
+            env[tgt.id] = val
+        elif isinstance(tgt, (ast.Tuple, ast.List)):
+            stars = [i for i, x in enumerate(tgt.elts) if isinstance(x, ast.Starred)]
+            n = len(tgt.elts)
+            for i, x in enumerate(tgt.elts):
+                if isinstance(x, ast.Starred):
+                    self.bind(x.value, Unknown("name", ast.unparse(x.value)), env)
+                elif isinstance(val, list) and not stars and len(val) == n:
+                    self.bind(x, val[i], env)
+                elif isinstance(val, list) and len(stars) == 1 and len(val) >= n - 1 and i < stars[0]:
+                    self.bind(x, val[i], env)
+                else:
+                    for nm in ast.walk(x):
+                        if isinstance(nm, ast.Name):
+                            env[nm.id] = Unknown("name", nm.id)
+
+    def pattern(self, p: ast.pattern, envs: list[dict[str, Any]]) -> list[dict[str, Any]]:
+        """bind the capture names of a pattern; `"a" | "b" as name` enumerates the literals"""
+        for n in ast.walk(p):
+            if isinstance(n, ast.MatchAs) and n.name:
+                lits: list[str] | None = None
+                if isinstance(n.pattern, ast.MatchOr):
+                    cand = [q.value.value for q in n.pattern.patterns if isinstance(q, ast.MatchValue) and isinstance(q.value, ast.Constant) and isinstance(q.value.value, str)]
+                    if len(cand) == len(n.pattern.patterns):
+                        lits = cand
+                elif isinstance(n.pattern, ast.MatchValue) and isinstance(n.pattern.value, ast.Constant) and isinstance(n.pattern.value.value, str):
+                    lits = [n.pattern.value.value]
+                if lits:
+                    envs = [dict(env, **{n.name: s_lit(v)}) for env in envs for v in lits]
+                else:
+                    for env in envs:
+                        env[n.name] = Unknown("name", n.name)
+            elif isinstance(n, ast.MatchStar) and n.name:
+                for env in envs:
+                    env[n.name] = Unknown("name", n.name)
+            elif isinstance(n, ast.MatchMapping) and n.rest:
+                for env in envs:
+                    env[n.rest] = Unknown("name", n.rest)
+        return envs
+
+    def block(self, stmts: list[ast.stmt], envs: list[dict[str, Any]], rets: list[Any] | None) -> list[dict[str, Any]]:
+        """run `stmts` on every environment; returns the environments that fall through"""
+        for st in stmts:
+            if not envs:
+                break
+            envs = self._fork(self.stmt(st, envs, rets))
+        return envs
+
+    def stmt(self, st: ast.stmt, envs: list[dict[str, Any]], rets: list[Any] | None) -> list[dict[str, Any]]:
+        out: list[dict[str, Any]] = []
+        if isinstance(st, (ast.Assign, ast.AnnAssign, ast.AugAssign)):
+            if st.value is None:
+                return envs
+            for env in envs:
+                self.record(st.value, env)
+                for v in self.eval(st.value, env):
+                    e2 = dict(env)
+                    if isinstance(st, ast.AugAssign):
+                        if isinstance(st.target, ast.Name) and isinstance(st.op, ast.Add) and is_sstr(e2.get(st.target.id)):
+                            e2[st.target.id] = s_cat(e2[st.target.id], as_sstr(v, ast.unparse(st.value)))
+                        else:
+                            # the new value is another hole than the old one (`size //= 2`)
+                            self.bind(st.target, Unknown("name", ast.unparse(st)), e2)
+                    else:
+                        for tgt in st.targets if isinstance(st, ast.Assign) else [st.target]:
+                            self.bind(tgt, v, e2)
+                    out.append(e2)
+            return out
+        if isinstance(st, ast.Return):
+            for env in envs:
+                if st.value is not None:
+                    self.record(st.value, env)
+                    if rets is not None:
+                        rets += self.eval(st.value, dict(env))
+            return []
+        if isinstance(st, (ast.Continue, ast.Break, ast.Raise)):
+            return []
+        if isinstance(st, ast.Expr):
+            for env in envs:
+                self.record(st.value, env)
+                # a list that is changed in place is only followed through `append`
+                c = st.value
+                if isinstance(c, ast.Call) and isinstance(c.func, ast.Attribute) and isinstance(c.func.value, ast.Name) and isinstance(env.get(c.func.value.id), list):
+                    nm = c.func.value.id
+                    if c.func.attr == "append" and len(c.args) == 1:
+                        vs = self.eval(c.args[0], dict(env))
+                        env[nm] = env[nm] + [vs[0]] if len(vs) == 1 else Unknown("name", nm)
+                    else:
+                        env[nm] = Unknown("name", nm)
+            return envs
+        if isinstance(st, ast.If):
+            for env in envs:
+                self.record(st.test, env)
+                t = self.truth(st.test, env)
+                e_then, e_else = dict(env), dict(env)
+                for n in ast.walk(st.test):
+                    if isinstance(n, ast.NamedExpr):
+                        vs = self.eval(n.value, dict(env))
+                        for v in vs[:1]:
+                            e_then[n.target.id] = v if len(vs) == 1 and not isinstance(v, Unknown) else Unknown("name", n.target.id)
+                            e_else[n.target.id] = e_then[n.target.id]
+                thens = [e_then]
+                # `if found := TABLE.get(key):` — one path per row of the table
+                if isinstance(st.test, ast.NamedExpr):
+                    vs = [v for v in self.eval(st.test.value, dict(env)) if not isinstance(v, Unknown)]
+                    if len(vs) > 1:
+                        thens = [dict(e_then, **{st.test.target.id: v}) for v in vs]
+                if t is not False:
+                    out += self.block(st.body, thens, rets)
+                if t is not True:
+                    out += self.block(st.orelse, [e_else], rets)
+            return out
+        if isinstance(st, ast.Match):
+            for env in envs:
+                self.record(st.subject, env)
+                for case in st.cases:
+                    ce = self.pattern(case.pattern, [dict(env)])
+                    if case.guard is not None:
+                        ce2: list[dict[str, Any]] = []
+                        for e2 in ce:
+                            self.record(case.guard, e2)
+                            alts = [e2]
+                            for n in ast.walk(case.guard):
+                                if isinstance(n, ast.NamedExpr):
+                                    vs = [v for v in self.eval(n.value, dict(e2)) if not isinstance(v, Unknown)]
+                                    alts = [dict(a, **{n.target.id: v}) for a in alts for v in (vs or [Unknown("name", n.target.id)])]
+                            ce2 += alts
+                        ce = ce2
+                    out += self.block(case.body, ce, rets)
+                out.append(env)
+            return out
+        if isinstance(st, (ast.For, ast.While)):
+            for env in envs:
+                starts = [dict(env)]
+                if isinstance(st, ast.For):
+                    self.record(st.iter, env)
+                    it = self.eval(st.iter, dict(env))
+                    if len(it) == 1 and isinstance(it[0], list) and it[0] and all(is_sstr(x) for x in it[0]):
+                        starts = []
+                        for x in it[0]:
+                            e2 = dict(env)
+                            self.bind(st.target, x, e2)
+                            starts.append(e2)
+                    else:
+                        self.bind(st.target, Unknown("name", ast.unparse(st.target)), starts[0])
+                else:
+                    self.record(st.test, env)
+                once = self.block(st.body, [dict(s) for s in starts], rets)
+                twice = self.block(st.body, [dict(s) for s in once[:8]], rets) if len(starts) == 1 else []
+                for e2 in once + twice:
+                    # a list that grows inside a loop has no fixed shape
+                    for nm, v in list(e2.items()):
+                        if isinstance(v, list) and vkey(v) != vkey(env.get(nm)) and isinstance(env.get(nm), list):
+                            e2[nm] = Unknown("name", nm)
+                after = self._fork([env] + once + twice)
+                out += after + self.block(st.orelse, [dict(a) for a in after], rets)
+            return out
+        if isinstance(st, (ast.With, ast.Try)):
+            if isinstance(st, ast.With):
+                for env in envs:
+                    for item in st.items:
+                        self.record(item.context_expr, env)
+            envs2 = self.block(list(st.body), [dict(e) for e in envs], rets)
+            if isinstance(st, ast.Try):
+                for h in st.handlers:
+                    envs2 += self.block(h.body, [dict(e) for e in envs], rets)
+                envs2 = self.block(st.orelse + st.finalbody, envs2, rets)
+            return envs2
+        if isinstance(st, (ast.FunctionDef, ast.ClassDef, ast.Import, ast.ImportFrom, ast.Pass, ast.Global, ast.Nonlocal, ast.Delete)):
+            return envs
+        for env in envs:
+            self.record(st, env)
+        return envs
+
+    def run(self) -> None:
+        """entry points: every function/method that no other function of the module calls; the others are inlined
+        at their call sites (with the arguments the caller passes)"""
+        fns: dict[str, ast.FunctionDef] = dict(self.funcs)
+        fns.update({"self." + name: fn for (_cls, name), fn in self.methods.items()})
+        calls: dict[str, set[str]] = {}
+        for key, fn in fns.items():
+            cs: set[str] = set()
+            for n in ast.walk(fn):
+                if isinstance(n, ast.Call):
+                    if isinstance(n.func, ast.Name) and n.func.id in self.funcs:
+                        cs.add(n.func.id)
+                    if isinstance(n.func, ast.Attribute) and isinstance(n.func.value, ast.Name) and n.func.value.id == "self" and "self." + n.func.attr in fns:
+                        cs.add("self." + n.func.attr)
+            calls[key] = cs
+        self.reporting = {k for k, fn in fns.items() if any(isinstance(n, ast.Name) and n.id == "ErrorInfo" for n in ast.walk(fn))}
+        while True:
+            more = {k for k, cs in calls.items() if cs & self.reporting} - self.reporting
+            if not more:
+                break
+            self.reporting |= more
+        called = {c for k, cs in calls.items() for c in cs if c != k}
+        for name, fn in self.funcs.items():
+            if name in called or name not in self.reporting:
+                continue
+            self.cls = None
+            self.block(fn.body, [{a.arg: Unknown("name", a.arg) for a in fn.args.args}], None)
+        for (cls, name), fn in self.methods.items():
+            if cls == "ErrorInfo" or "self." + name not in self.reporting or ("self." + name in called and not name.startswith("visit_")):
+                continue
+            self.cls = cls
+            self.block(fn.body, [{a.arg: Unknown("name", a.arg) for a in fn.args.args}], None)
+
+
+def hole_table(parts: SStr) -> tuple[str, list[tuple[str, str]]]:
+    """message text with `{i}` for hole i (numbered by first occurrence of the same source; literal braces are not
+    escaped), and the holes' kinds"""
+    holes: list[tuple[str, str]] = []
+    text = ""
+    for p in parts:
+        if p[0] == "lit":
+            text += p[1]
+            continue
+        h = ("sfy", p[1]) if p[0] == "sfy" else ("raw:" + p[1], p[2])
+        if h not in holes:
+            holes.append(h)
+        text += "{%d}" % holes.index(h)
+    return text, holes
+
+
+def numbered(parts: SStr) -> list[Any]:
+    """parts with hole numbers: str (literal) | int (hole)"""
+    _, holes = hole_table(parts)
+    out: list[Any] = []
+    for p in parts:
+        if p[0] == "lit":
+            out.append(p[1])
+        else:
+            out.append(holes.index(("sfy", p[1]) if p[0] == "sfy" else ("raw:" + p[1], p[2])))
+    return out
+
+
+def fragments(nparts: list[Any]) -> list[dict[str, Any]]:
+    """the back-quoted fragments of a message: role (`old`: the code being replaced, `new`: the proposed code,
+    `other`), and the fragment's own parts"""
+    frags: list[dict[str, Any]] = []
+    cur: list[Any] | None = None
+    before = ""
+    for p in nparts:
+        if isinstance(p, int):
+            if cur is not None:
+                cur.append(p)
+            else:
+                before += "\x00"
+            continue
+        pieces = p.split("`")
+        for i, piece in enumerate(pieces):
+            if i > 0:
+                if cur is None:
+                    cur = []
+                else:
+                    b = before.rstrip().lower()
+                    role = "old" if b.endswith(("replace", "instead of")) else "new" if b.endswith(("with", "use", "to")) else "other"
+                    frags.append({"role": role, "parts": cur})
+                    cur, before = None, ""
+            if piece:
+                if cur is not None:
+                    cur.append(piece)
+                else:
+                    before += piece
+    return frags
+
+
+# ---- a fragment as a tree with holes
+
+
+class Unmodelled(Exception):
+    pass
+
+
+PH = re.compile(r"__h(\d+)__")
+BIN = {ast.BitOr: "bitor", ast.BitXor: "bitxor", ast.BitAnd: "bitand", ast.LShift: "lshift", ast.RShift: "rshift", ast.Add: "add", ast.Sub: "sub", ast.Mult: "mul", ast.Div: "div", ast.FloorDiv: "floordiv", ast.Mod: "mod", ast.MatMult: "matmul", ast.Pow: "pow"}
+BIN_TEXT = {"or_": "or", "and_": "and", "bitor": "|", "bitxor": "^", "bitand": "&", "lshift": "<<", "rshift": ">>", "add": "+", "sub": "-", "mul": "*", "div": "/", "floordiv": "//", "mod": "%", "matmul": "@", "pow": "**"}
+BIN_PREC = {"or_": 3, "and_": 4, "bitor": 7, "bitxor": 8, "bitand": 9, "lshift": 10, "rshift": 10, "add": 11, "sub": 11, "mul": 12, "div": 12, "floordiv": 12, "mod": 12, "matmul": 12, "pow": 14}
+CMP = {ast.Eq: "eq", ast.NotEq: "ne", ast.Lt: "lt", ast.LtE: "le", ast.Gt: "gt", ast.GtE: "ge", ast.Is: "is_", ast.IsNot: "isNot", ast.In: "in_", ast.NotIn: "notIn"}
+CMP_TEXT = {"eq": "==", "ne": "!=", "lt": "<", "le": "<=", "gt": ">", "ge": ">=", "is_": "is", "isNot": "is not", "in_": "in", "notIn": "not in"}
+UN = {ast.USub: "neg", ast.UAdd: "pos", ast.Invert: "inv", ast.Not: "not_"}
+UN_TEXT = {"neg": "-", "pos": "+", "inv": "~", "not_": "not"}
+
+
+def to_tree(e: ast.AST) -> tuple:
+    """CPython's tree of a fragment (holes are the names `__hN__`) as the model's `Node`, in the shape mypy gives it
+    (`and`/`or` chains right-nested, True/False/None as names)"""
+    r = to_tree
+    if isinstance(e, ast.Name):
+        m = PH.fullmatch(e.id)
+        if m:
+            return ("hole", int(m.group(1)))
+        if "__h" in e.id:
+            raise Unmodelled("adjacent holes")
+        return ("name", e.id)
+    if isinstance(e, ast.Attribute):
+        if "__h" in e.attr:
+            raise Unmodelled("hole as attribute name")
+        return ("member", r(e.value), e.attr)
+    if isinstance(e, ast.Constant):
+        v = e.value
+        if v is True or v is False or v is None:
+            return ("name", str(v))
+        if v is Ellipsis:
+            return ("ellipsis",)
+        if isinstance(v, int):
+            return ("int", v)
+        if isinstance(v, str):
+            if "__h" in v:
+                raise Unmodelled("hole inside a literal")
+            return ("str", v)
+        if isinstance(v, bytes):
+            if b"__h" in v:
+                raise Unmodelled("hole inside a literal")
+            return ("bytes", repr(v)[2:-1])
+        if isinstance(v, (float, complex)):
+            return ("float" if isinstance(v, float) else "complex", str(v))
+        raise Unmodelled("constant")
+    if isinstance(e, ast.Dict):
+        return ("dict", [(None if k is None else r(k), r(v)) for k, v in zip(e.keys, e.values)])
+    if isinstance(e, (ast.Tuple, ast.List, ast.Set)):
+        return ({ast.Tuple: "tuple", ast.List: "list", ast.Set: "set"}[type(e)], [r(x) for x in e.elts])
+    if isinstance(e, ast.Call):
+        args = [("star", "", r(a.value)) if isinstance(a, ast.Starred) else ("pos", "", r(a)) for a in e.args]
+        for kw in e.keywords:
+            if kw.arg is not None and "__h" in kw.arg:
+                raise Unmodelled("hole as keyword name")
+            args.append(("star2", "", r(kw.value)) if kw.arg is None else ("named", kw.arg, r(kw.value)))
+        return ("call", r(e.func), args)
+    if isinstance(e, ast.Subscript):
+        return ("index", r(e.value), r(e.slice))
+    if isinstance(e, ast.Slice):
+        o = lambda x: None if x is None else r(x)  # noqa: E731
+        return ("slice", o(e.lower), o(e.upper), o(e.step))
+    if isinstance(e, ast.BinOp):
+        return ("op", BIN[type(e.op)], r(e.left), r(e.right))
+    if isinstance(e, ast.BoolOp):
+        op = "and_" if isinstance(e.op, ast.And) else "or_"
+        vals = [r(v) for v in e.values]
+        acc = vals[-1]
+        for v in reversed(vals[:-1]):
+            acc = ("op", op, v, acc)
+        return acc
+    if isinstance(e, ast.Compare):
+        return ("cmp", r(e.left), [(CMP[type(o)], r(c)) for o, c in zip(e.ops, e.comparators)])
+    if isinstance(e, ast.UnaryOp):
+        return ("unary", UN[type(e.op)], r(e.operand))
+    if isinstance(e, ast.Lambda):
+        a = e.args
+        if a.posonlyargs or a.defaults or a.vararg or a.kwonlyargs or a.kwarg:
+            raise Unmodelled("lambda parameters")
+        return ("lambda", [p.arg for p in a.args], r(e.body))
+    if isinstance(e, ast.IfExp):
+        return ("cond", r(e.body), r(e.test), r(e.orelse))
+    if isinstance(e, ast.Await):
+        return ("await", r(e.value))
+    if isinstance(e, ast.NamedExpr):
+        return ("walrus", r(e.target), r(e.value))
+    if isinstance(e, ast.Starred):
+        return ("star", r(e.value))
+    if isinstance(e, ast.JoinedStr):
+        parts: list[tuple] = []
+        for p in e.values:
+            if isinstance(p, ast.Constant):
+                if "__h" in p.value:
+                    raise Unmodelled("hole inside a literal")
+                parts.append(("str", p.value))
+            else:
+                assert isinstance(p, ast.FormattedValue)
+                spec = ""
+                if p.format_spec is not None:
+                    vals = p.format_spec.values  # type: ignore[attr-defined]
+                    if len(vals) != 1 or not isinstance(vals[0], ast.Constant):
+                        raise Unmodelled("nested format spec")
+                    spec = vals[0].value
+                    if "__h" in spec:
+                        raise Unmodelled("hole inside a format spec")
+                parts.append(("ffield", r(p.value), None if p.conversion < 0 else chr(p.conversion), spec))
+        if not any(p[0] == "ffield" for p in parts):
+            return ("str", "".join(p[1] for p in parts))
+        return ("fstr", parts)
+    raise Unmodelled(type(e).__name__)
+
+
+def lchar(c: str) -> str:
+    if c == "'":
+        return "'\\''"
+    if c == "\\":
+        return "'\\\\'"
+    if c == "\n":
+        return "'\\n'"
+    if c == "\t":
+        return "'\\t'"
+    if c == "\r":
+        return "'\\r'"
+    if 32 <= ord(c) < 127 or ord(c) > 160:
+        return "'" + c + "'"
+    return "(Char.ofNat %d)" % ord(c)
+
+
+def lchars(s: str) -> str:
+    """a `List Char` literal (the kernel evaluates `String.toList` of a fresh literal very slowly: never emit one)"""
+    return "[" + ",".join(lchar(c) for c in s) + "]"
+
+
+def lopt(x: str | None) -> str:
+    return "none" if x is None else f"(some {x})"
+
+
+def lean_node(t: tuple | None) -> str:
+    """the tree as a Lean term of type `Node`"""
+    n = lean_node
+    k = t[0]  # type: ignore[index]
+    if k == "hole":
+        return f"(.other {t[1]})"
+    if k in ("name", "float", "complex", "str", "bytes"):
+        return f"(.{k} {lchars(t[1])})"
+    if k == "int":
+        return f"(.int {t[1]})"
+    if k == "ellipsis":
+        return ".ellipsis"
+    if k == "member":
+        return f"(.member {n(t[1])} {lchars(t[2])})"
+    if k == "dict":
+        return "(.dict [%s])" % ", ".join(f"({lopt(None if a is None else n(a))}, {n(b)})" for a, b in t[1])
+    if k in ("tuple", "list", "set"):
+        return "(.%s [%s])" % (k, ", ".join(n(x) for x in t[1]))
+    if k == "call":
+        return "(.call %s [%s])" % (n(t[1]), ", ".join(f"(.{kk}, {lchars(nm)}, {n(a)})" for kk, nm, a in t[2]))
+    if k == "index":
+        return f"(.index {n(t[1])} {n(t[2])})"
+    if k == "slice":
+        return "(.slice %s %s %s)" % tuple(lopt(None if x is None else n(x)) for x in t[1:])
+    if k == "op":
+        return f"(.op .{t[1]} {n(t[2])} {n(t[3])})"
+    if k == "cmp":
+        return "(.cmp %s [%s])" % (n(t[1]), ", ".join(f"(.{o}, {n(x)})" for o, x in t[2]))
+    if k == "unary":
+        return f"(.unary .{t[1]} {n(t[2])})"
+    if k == "lambda":
+        return "(.lambda [%s] (some %s))" % (", ".join(f"({lchars(p)}, .pos)" for p in t[1]), n(t[2]))
+    if k == "cond":
+        return f"(.cond {n(t[1])} {n(t[2])} {n(t[3])})"
+    if k == "await":
+        return f"(.await {n(t[1])})"
+    if k == "walrus":
+        return f"(.walrus {n(t[1])} {n(t[2])})"
+    if k == "star":
+        return f"(.star {n(t[1])})"
+    if k == "fstr":
+        return "(.fstr [%s])" % ", ".join(n(x) for x in t[1])
+    if k == "ffield":
+        return "(.ffield %s %s %s)" % (n(t[1]), "none" if t[2] is None else "(some '%s')" % t[2], lchars(t[3]))
+    raise Unmodelled(k)
+
+
+def prec(t: tuple) -> int:
+    k = t[0]
+    if k == "walrus":
+        return 0
+    if k == "lambda":
+        return 1
+    if k == "cond":
+        return 2
+    if k == "op":
+        return BIN_PREC[t[1]]
+    if k == "unary":
+        return 5 if t[1] == "not_" else 13
+    if k == "cmp":
+        return 6
+    if k == "await":
+        return 15
+    if k in ("member", "call", "index"):
+        return 16
+    if k in ("star", "slice", "ffield"):
+        return 0
+    return 17
+
+
+def strlit(v: str) -> str:
+    return '"' + repr(v)[1:-1].replace('"', '\\"') + '"'
+
+
+def pr(t: tuple) -> str:
+    """twin of the Lean reference printer `pr` followed by `render` (holes print as `{i}`); used only to tell whether
+    the fragment's text IS the reference text of its tree — Lean re-checks that (`gen_text_exact`)"""
+
+    def w(level: int, x: tuple) -> str:
+        s = pr(x)
+        return "(" + s + ")" if prec(x) < level else s
+
+    def opt(x: tuple | None) -> str:
+        return "" if x is None else w(1, x)
+
+    k = t[0]
+    if k == "hole":
+        return "{%d}" % t[1]
+    if k in ("name", "float", "complex"):
+        return t[1]
+    if k == "int":
+        return str(t[1])
+    if k == "str":
+        return strlit(t[1])
+    if k == "bytes":
+        return 'b"' + t[1].replace('"', '\\"') + '"'
+    if k == "ellipsis":
+        return "..."
+    if k == "member":
+        return ("(" + pr(t[1]) + ")" if t[1][0] == "int" else w(16, t[1])) + "." + t[2]
+    if k == "dict":
+        return "{" + ", ".join(("**" + w(7, b)) if a is None else (w(1, a) + ": " + w(1, b)) for a, b in t[1]) + "}"
+    if k == "tuple":
+        return "(" + ", ".join(w(0, x) for x in t[1]) + ("," if len(t[1]) == 1 else "") + ")"
+    if k == "list":
+        return "[" + ", ".join(w(0, x) for x in t[1]) + "]"
+    if k == "set":
+        return "{" + ", ".join(w(0, x) for x in t[1]) + "}"
+    if k == "call":
+        args = []
+        for kk, nm, a in t[2]:
+            args.append({"named": nm + "=" + w(1, a), "star": "*" + w(1, a), "star2": "**" + w(1, a)}.get(kk) if kk != "pos" else w(0, a))
+        return w(16, t[1]) + "(" + ", ".join(args) + ")"
+    if k == "index":
+        i = t[2]
+        if i[0] == "tuple":
+            body = ", ".join(w(0, x) for x in i[1]) + ("," if len(i[1]) == 1 else "")
+            idx = body if any(x[0] == "slice" for x in i[1]) else "(" + body + ")"
+        else:
+            idx = pr(i)
+        return w(16, t[1]) + "[" + idx + "]"
+    if k == "slice":
+        return opt(t[1]) + ":" + opt(t[2]) + ("" if t[3] is None else ":" + w(1, t[3]))
+    if k == "op":
+        o = t[1]
+        lhs = {"or_": 4, "and_": 5, "pow": 15}.get(o, BIN_PREC[o])
+        rhs = {"or_": 3, "and_": 4, "pow": 13}.get(o, BIN_PREC[o] + 1)
+        return w(lhs, t[2]) + " " + BIN_TEXT[o] + " " + w(rhs, t[3])
+    if k == "cmp":
+        return w(7, t[1]) + "".join(" " + CMP_TEXT[o] + " " + w(7, x) for o, x in t[2])
+    if k == "unary":
+        return UN_TEXT[t[1]] + (" " if t[1] == "not_" else "") + w(5 if t[1] == "not_" else 13, t[2])
+    if k == "lambda":
+        return "lambda" + ((" " + ", ".join(t[1])) if t[1] else "") + ": " + w(1, t[2])
+    if k == "cond":
+        return w(3, t[1]) + " if " + w(3, t[2]) + " else " + w(1, t[3])
+    if k == "await":
+        return "await " + w(16, t[1])
+    if k == "walrus":
+        return pr(t[1]) + " := " + w(1, t[2])
+    if k == "star":
+        return "*" + w(7, t[1])
+    if k == "fstr":
+        out = 'f"'
+        for p in t[1]:
+            if p[0] == "str":
+                body = repr(p[1])[1:-1].replace('"', '\\"')
+                out += body.replace("{", "{{").replace("}", "}}") if ("{" in p[1] or "}" in p[1]) else body
+            else:
+                out += pr(p)
+        return out + '"'
+    if k == "ffield":
+        inner = w(3, t[1])
+        spec = t[3]
+        return "{" + (" " if inner.startswith("{") and t[1][0] != "hole" else "") + inner + ("" if t[2] is None else "!" + t[2]) + ("" if not spec else ":" + (spec if all(32 <= ord(c) < 127 and c not in "\\\"'{}" for c in spec) else repr(spec)[1:-1].replace('"', '\\"'))) + "}"
+    raise Unmodelled(k)
+
+
+def is_target(t: tuple) -> bool:
+    return t[0] in ("hole", "name", "member", "index") or (t[0] in ("tuple", "list") and bool(t[1]) and all(is_target(x) for x in t[1]))
+
+
+def analyse_fragment(parts: list[Any], code: str = "") -> dict[str, Any]:
+    """text (holes as `{i}`), form, and the tree(s) of a fragment.
+
+    form: `expr` | `assign` (`target = value`) | `for` (`for target in iterable`, a clause) | `in` / `notin` (the tail
+    `in <expr>` of a comparison) | `unmodelled:<why>` (Python accepts it, the model's `Node` has no such shape) |
+    `unparsed` (neither an expression nor statements nor one of the clause forms)"""
+    text = "".join("{%d}" % p if isinstance(p, int) else p for p in parts)
+    src = "".join("__h%d__" % p if isinstance(p, int) else p for p in parts)
+    out: dict[str, Any] = {"text": text, "form": "unparsed", "tree": None, "target": None, "exact": False}
+    if re.search(r"[A-Za-z0-9_]__h\d+__|__h\d+__[A-Za-z0-9_]", src):
+        out["form"] = "unmodelled:hole joined to a name"
+        return out
+
+    def attempt(code: str, mode: str) -> Any:
+        import warnings
+
+        try:
+            with warnings.catch_warnings():
+                warnings.simplefilter("ignore")
+                return ast.parse(code, mode=mode).body
+        except (SyntaxError, ValueError, RecursionError):
+            return None
+
+    try:
+        if code == "FURB119" and src.startswith("{") and src.endswith("}") and attempt("f\'\'\'" + src + "\'\'\'", "eval") is not None:
+            out["form"] = "unmodelled:f-string field"  # this check quotes replacement fields, not displays
+            return out
+        body = attempt(src, "eval")
+        if body is not None:
+            tree = to_tree(body)
+            out.update(form="expr", tree=tree, exact=(pr(tree) if prec(tree) >= 1 else "(" + pr(tree) + ")") == text)
+            return out
+        stmts = attempt(src, "exec")
+        if stmts is not None:
+            if len(stmts) == 1 and isinstance(stmts[0], ast.Assign) and len(stmts[0].targets) == 1:
+                tgt, val = to_tree(stmts[0].targets[0]), to_tree(stmts[0].value)
+                if is_target(tgt):
+                    out.update(form="assign", tree=val, target=tgt, exact=pr(tgt) + " = " + (pr(val) if prec(val) >= 1 else "(" + pr(val) + ")") == text)
+                    return out
+            out["form"] = "unmodelled:statements"
+            return out
+        if src.startswith("for ") and not src.rstrip().endswith(":"):
+            stmts = attempt(src + ": pass", "exec")
+            if stmts is not None and len(stmts) == 1 and isinstance(stmts[0], ast.For):
+                tgt, it = to_tree(stmts[0].target), to_tree(stmts[0].iter)
+                if is_target(tgt):
+                    out.update(form="for", tree=it, target=tgt, exact="for " + pr(tgt) + " in " + (pr(it) if prec(it) >= 1 else "(" + pr(it) + ")") == text)
+                    return out
+        for kw, form in (("in ", "in"), ("not in ", "notin")):
+            if src.startswith(kw):
+                body = attempt("_ " + src, "eval")
+                if isinstance(body, ast.Compare) and len(body.ops) == 1:
+                    tree = to_tree(body)
+                    out.update(form=form, tree=tree, exact=pr(tree) == "_ " + text)
+                    return out
+        for wrap, form in (
+            (lambda s: s[1:] if s.startswith("@") else None, "unmodelled:decorator"),
+            (lambda s: s + " pass" if s.startswith("class ") and s.endswith(":") else None, "unmodelled:class header"),
+            (lambda s: "match _:\n " + s if s.startswith("case ") else None, "unmodelled:case clause"),
+            (lambda s: "if _:\n pass\n" + s if s.startswith("else:") else None, "unmodelled:else clause"),
+            (lambda s: "match _:\n case " + s + ": pass" if re.match(r"^[A-Za-z_][\w.]*\(.*\) as \w+$", s) else None, "unmodelled:pattern"),
+            (lambda s: "_(" + s + ")" if re.match(r"^\w+=", s) else None, "unmodelled:keyword argument"),
+            (lambda s: "f\'\'\'" + s + "\'\'\'" if s.startswith("{") and s.endswith("}") else None, "unmodelled:f-string field"),
+            (lambda s: re.sub(r" (except\b|finally:|else:)", r"\n\1", s) if s.startswith(("try:", "with ")) else None, "unmodelled:statements"),
+            (lambda s: "(" + s + ")" if " for " in s else None, "unmodelled:GeneratorExp"),
+        ):
+            code = wrap(src)
+            if code is not None and (attempt(code, "exec") is not None):
+                out["form"] = form
+                return out
+        # schematic fragments: `...` standing for a comprehension variable or clause
+        code = src.replace("for ... in", "for _w_ in")
+        if code != src and (attempt(code, "eval") is not None or attempt("(" + code + ")", "eval") is not None):
+            out["form"] = "unmodelled:schematic comprehension"
+            return out
+        # `...` standing for further names / clauses of a statement (`global x, y, ...`)
+        code = re.sub(r"\.\.\.", "_w_", src)
+        if code != src and (attempt(code, "eval") is not None or attempt(code, "exec") is not None):
+            out["form"] = "unmodelled:schematic"
+            return out
+    except Unmodelled as ex:
+        out.update(form="unmodelled:" + str(ex), tree=None, target=None)
+        return out
+    return out
+
+
+def position(tree: tuple, hole: int, path: str = "top") -> list[str]:
+    """where hole `hole` sits (read off the parsed fragment): e.g. `receiver of .copy`, `operand of not`"""
+    k = tree[0]
+    if k == "hole":
+        return [path] if tree[1] == hole else []
+    kids: list[tuple[str, tuple]] = []
+    if k == "member":
+        kids = [("receiver of ." + tree[2], tree[1])]
+    elif k == "dict":
+        for a, b in tree[1]:
+            kids += ([("dict key", a)] if a is not None else []) + [("dict value" if a is not None else "operand of **", b)]
+    elif k in ("tuple", "list", "set"):
+        kids = [(k + " item", x) for x in tree[1]]
+    elif k == "call":
+        kids = [("callee", tree[1])] + [({"pos": "argument", "named": "value of " + nm + "=", "star": "operand of *", "star2": "operand of **"}[kk], a) for kk, nm, a in tree[2]]
+    elif k == "index":
+        kids = [("subscript base", tree[1]), ("subscript", tree[2])]
+    elif k == "slice":
+        kids = [("slice bound", x) for x in tree[1:] if x is not None]
+    elif k == "op":
+        kids = [("left of " + BIN_TEXT[tree[1]], tree[2]), ("right of " + BIN_TEXT[tree[1]], tree[3])]
+    elif k == "cmp":
+        kids = [("left of " + CMP_TEXT[tree[2][0][0]], tree[1])] + [("right of " + CMP_TEXT[o], x) for o, x in tree[2]]
+    elif k == "unary":
+        kids = [("operand of " + UN_TEXT[tree[1]], tree[2])]
+    elif k == "lambda":
+        kids = [("lambda body", tree[2])]
+    elif k == "cond":
+        kids = [("value of if-else", tree[1]), ("condition of if-else", tree[2]), ("else value", tree[3])]
+    elif k == "await":
+        kids = [("operand of await", tree[1])]
+    elif k == "walrus":
+        kids = [("value of :=", tree[2])]
+    elif k == "star":
+        kids = [("operand of *", tree[1])]
+    elif k == "fstr":
+        kids = [("f-string", x) for x in tree[1]]
+    elif k == "ffield":
+        kids = [("f-string field", tree[1])]
+    out: list[str] = []
+    for p, x in kids:
+        out += position(x, hole, p)
+    return out
+
+
+def scan_source(src: str, relpath: str) -> dict[str, Any] | None:
+    tree = ast.parse(src)
+    sc = Scanner(tree, relpath)
+    if sc.code is None:
+        return None
+    sc.run()
+    msgs: list[dict[str, Any]] = []
+    seen: set[str] = set()
+    for line in sorted(sc.sites):
+        for parts in sorted(sc.sites[line], key=lambda p: (hole_table(p)[0], repr(hole_table(p)[1]))):
+            text, holes = hole_table(parts)
+            k = text + repr([h[0] for h in holes])
+            if k in seen:
+                continue
+            seen.add(k)
+            nparts = numbered(parts)
+            frags = []
+            for fr in fragments(nparts):
+                a = analyse_fragment(fr["parts"], sc.code)
+                used = sorted({p for p in fr["parts"] if isinstance(p, int)})
+                a.update(role=fr["role"], holes=used, positions={})
+                for t_ in (a["target"], a["tree"]):
+                    if t_ is not None:
+                        for h in used:
+                            ps = position(t_, h, "target" if t_ is a["target"] and a["target"] is not None else "top")
+                            if ps:
+                                a["positions"].setdefault(h, [])
+                                a["positions"][h] += ps
+                frags.append(a)
+            msgs.append({"line": line, "text": text, "parts": nparts, "holes": [list(h) for h in holes], "fragments": frags})
+    return {"code": sc.code, "file": relpath, "messages": msgs}
+
+
+def scan_checks() -> list[dict[str, Any]]:
+    """every message of every check of the current source tree"""
+    out = []
+    root = core.REPO / "refurb" / "checks"
+    for f in sorted(root.rglob("*.py")):
+        if f.name == "__init__.py":
+            continue
+        r = scan_source(f.read_text(), str(f.relative_to(core.REPO)))
+        if r is not None:
+            out.append(r)
+    out.sort(key=lambda r: (re.sub(r"\d+", "", r["code"]), int(re.sub(r"\D", "", r["code"]) or 0)))
+    return out
+
+
+def all_checks() -> list[dict[str, Any]]:
+    """`scan_checks()`, memoised on the content of the check sources and of this extractor"""
+    from pathlib import Path
+
+    own = extract.sha(Path(__file__).read_text())
+    for stale in (core.VERIF / ".cache").glob("c02-templates-*.json"):
+        if not stale.name.startswith(f"c02-templates-{own}-"):
+            stale.unlink(missing_ok=True)
+    return core.cached_json(f"c02-templates-{own}", ["refurb/checks/**/*.py"], scan_checks)
+
+
+FORMS = {"expr": ".expr", "assign": ".assign", "for": ".forIn", "in": ".inTail", "notin": ".notInTail", "unparsed": ".unparsed"}
+
+
+def _frag_row(msg: dict[str, Any], mi: int, fr: dict[str, Any]) -> str:
+    kinds = {i: msg["holes"][i][0] for i in fr["holes"]}
+    pos = {int(h): ps for h, ps in fr["positions"].items()}
+    note = fr["form"] + "".join("; {%d} %s%s" % (i, k, (" @ " + ", ".join(pos[i])) if i in pos else "") for i, k in sorted(kinds.items()))
+    return "    ⟨%d, .%s, %s, %s, %s, %s, %s, %s,\n      %s⟩  -- %s" % (
+        mi,
+        fr["role"],
+        FORMS.get(fr["form"], ".unmodelled"),
+        extract.lbool(fr["exact"]),
+        extract.llist(["(%d, %s)" % (i, extract.lbool(k == "sfy")) for i, k in sorted(kinds.items())]),
+        lopt(None if fr["target"] is None else lean_node(fr["target"])),
+        lopt(None if fr["tree"] is None else lean_node(fr["tree"])),
+        lchars(fr["text"]),
+        extract.lstr(note),
+        fr["text"].replace("\n", "\\n"),
+    )
+
+
+@extract.register("Templates")
+def gen_templates() -> str:
+    checks = all_checks()
+    blocks: list[str] = []
+    for c in checks:
+        rows: list[str] = []
+        for mi, m in enumerate(c["messages"]):
+            for fr in m["fragments"]:
+                rows.append(_frag_row(m, mi, fr))
+        # the comment of a row must not swallow the separator: put the comma on the next line
+        body = "\n    ,\n".join(rows)
+        blocks.append("  ⟨%d, %s, %s, %d, [\n%s\n  ]⟩" % (int(re.sub(r"\D", "", c["code"]) or 0), extract.lstr(c["code"]), extract.lstr(c["file"]), len(c["messages"]), body))
+    return (
+        extract.HEADER
+        + "import RefurbVerif.Lemmas.Templates\n\nnamespace RefurbVerif.Generated\nopen RefurbVerif.Sfy RefurbVerif.C02\n\n"
+        + LEAN_TYPES
+        + "def genTable : List GenCheck := [\n" + "\n  ,\n".join(blocks) + "\n]\n"
+        + LEAN_SUMMARY
+        + "\nend RefurbVerif.Generated\n"
+    )
+
+
+LEAN_TYPES = """/-- what a fragment is in its message: the code to be replaced, the proposed code, or something else quoted -/
+inductive Role where
+  | old | new | other
+  deriving DecidableEq, Repr
+
+/-- how a fragment parses with names in its holes (CPython's parser): an expression; `target = value`;
+    `for target in iterable` (a clause); `in operand` / `not in operand` (the tail of a comparison); `unmodelled`:
+    Python accepts it (as statements, a decorator, a generator expression, with a hole inside a name or a literal …)
+    but the model's `Node` has no tree for it; `unparsed`: none of these -/
+inductive Form where
+  | expr | assign | forIn | inTail | notInTail | unmodelled | unparsed
+  deriving DecidableEq, Repr
+
+/-- One back-quoted fragment of one message a check can build (harness/extract_c02.py reads the messages off the
+    check's source). `msg`: index of the message within its check; `holes`: hole number and whether it is filled by
+    `stringify(…)` (else: by something else — a name from a table, `node.name`, `str(node)`, a joined list);
+    `shape`/`target`: the fragment's tree(s) with holes `.other i`; `text`: the fragment, `{i}` where hole `i` is;
+    `exact`: the harness claims `text` is the reference text of the tree (re-checked in Lean); `note`: for the reader
+    (form detail, what fills each hole and where it sits) -/
+structure GenFrag where
+  msg : Nat
+  role : Role
+  form : Form
+  exact : Bool
+  holes : List (Nat × Bool)
+  target : Option Node
+  shape : Option Node
+  text : List Char
+  note : String
+  deriving Repr
+
+/-- the messages of one check: numeric code, name, source file, number of distinct messages, their fragments -/
+structure GenCheck where
+  code : Nat
+  name : String
+  file : String
+  messages : Nat
+  frags : List GenFrag
+  deriving Repr
+
+"""
+
+LEAN_SUMMARY = """
+/-- the fragment a row stands for (`none`: a form the model has no tree for) -/
+def GenFrag.frag (g : GenFrag) : Option Frag :=
+  match g.form, g.target, g.shape with
+  | .expr, _, some s => some (.expr s)
+  | .assign, some t, some s => some (.assign t s)
+  | .forIn, some t, some s => some (.forIn t s)
+  | .inTail, _, some (.cmp _ [(.in_, e)]) => some (.inTail false e)
+  | .notInTail, _, some (.cmp _ [(.notIn, e)]) => some (.inTail true e)
+  | _, _, _ => none
+
+/-- what the holes of a row demand of the text put into them (`reqs` of Model/Stringify.lean through its executable
+    twin: the level of the hole's position, not-a-bare-integer before `.attr`, no leading brace in an f-string field) -/
+def GenFrag.reqs (g : GenFrag) : Option (List Req) := g.frag.map reqsF2
+
+/-- the class of a fragment: role, form, and per hole occurrence (filled by `stringify`?, level, notInt, noBrace);
+    level 99 = the position is not modelled -/
+abbrev FragClass := Role × Form × List (Bool × Nat × Bool × Bool)
+
+def GenFrag.sfy (g : GenFrag) (i : Nat) : Bool := (g.holes.lookup i).getD false
+
+def GenFrag.cls (g : GenFrag) : FragClass :=
+  (g.role, g.form,
+    match g.reqs with
+    | some rs => rs.map (fun r => (g.sfy r.hole, r.level, r.notInt, r.noBrace))
+    | none => g.holes.map (fun h => (h.2, 99, false, false)))
+
+/-- per check: code, number of distinct messages and the distinct classes of its fragments, in order of appearance -/
+def genSummary : List (Nat × Nat × List FragClass) :=
+  genTable.map (fun c => (c.code, c.messages, (c.frags.map GenFrag.cls).eraseDups))
+
+/-! comparison with the committed template tables (`templates` of the model, `templatesMore`) -/
+
+/-- built only from literal chunks and quoted fragments: every hole is filled by `stringify(…)` -/
+def closed (g : GenFrag) : Bool := g.holes.all (fun h => h.2)
+
+/-- the expression the committed table would list for a row of the regenerated one: the shape itself (not when it
+    is a bare hole: the whole quoted node); for a loop head the iterable; for `in …` the comparison `_ in …` -/
+def comparableShape (g : GenFrag) : Option Node :=
+  match g.form, g.shape with
+  | .expr, some (.other _) => none
+  | .expr, some s => some s
+  | .forIn, some (.other _) => none
+  | .forIn, some s => some s
+  | .inTail, some s => some s
+  | .notInTail, some s => some s
+  | _, _ => none
+
+/-- `FURB145` ↦ 145 -/
+def codeOf (s : String) : Nat := (s.toList.filter Char.isDigit).foldl (fun n c => 10 * n + (c.toNat - 48)) 0
+
+def roleOf (s : String) : Role := if s == "old" then .old else if s == "new" then .new else .other
+
+/-- the committed templates of one check: role and canonical form (text and hole demands up to hole numbering) -/
+def committedOf (code : Nat) : List (Role × (Toks × List Req)) :=
+  (committed.filter (fun t => codeOf t.check == code)).map (fun t => (roleOf t.role, canonForm2 t.shape))
+
+/-- every regenerated fragment of a (check, role) the committed tables know is one of the committed templates: same
+    text, same demands on the holes (up to the numbering of the holes) … -/
+def genInCommitted : Bool :=
+  genTable.all (fun c =>
+    let cs := committedOf c.code
+    c.frags.all (fun g => !cs.any (fun t => t.1 == g.role) ||
+      match comparableShape g with
+      | some s => cs.any (fun t => t.1 == g.role && decide (t.2 = canonForm2 s))
+      | none => true))
+
+/-- … and every committed template is still built by its check: some regenerated fragment of that (check, role) has
+    that text and those demands, or is a fragment the source builds in a way the table cannot show (a bare hole, a
+    form without tree, a fragment with a hole that is not filled by `stringify`, e.g. a joined list of arguments) -/
+def committedInGen : Bool :=
+  genTable.all (fun c =>
+    (committedOf c.code).all (fun t => c.frags.any (fun g => g.role == t.1 &&
+      match comparableShape g with
+      | some s => decide (t.2 = canonForm2 s) || !closed g
+      | none => true)))
+
+/-- every check of the committed tables is a check of the source -/
+def committedChecksExist : Bool :=
+  committed.all (fun t => genTable.any (fun c => c.code == codeOf t.check))
+"""
+
+
+if __name__ == "__main__":
+    import json
+
+    for r in scan_checks():
+        print(r["code"], r["file"])
+        for m in r["messages"]:
+            print("   ", m["line"], json.dumps(m["text"], ensure_ascii=False), [h[0] for h in m["holes"]])
+            for fr in m["fragments"]:
+                print("        ", fr["role"], json.dumps(fr["text"]), fr["form"], "exact" if fr["exact"] else "", fr["positions"] or "")
